@@ -55,6 +55,38 @@ Example C01_instance :
   /\ lcp [false; true; true; false] [false; true; false; false] = 2.
 Proof. vm_compute. split; reflexivity. Qed.
 
+(* End to end over GENERATED code only: the generated constructor (seeding loops, ipaddress parsing), with the salter field dispatched to the
+   generated _generate_bit_from_hash (MD5 of salt + bit string), builds an object on which -- in every later state satisfying the invariant,
+   hence after any request history -- the generated anonymize / deanonymize return the pure prefix-preserving image / pre-image under the flip
+   function salter_md5 salt with the listed prefixes pinned.  The theorems above are about that image. *)
+Require Import Str IpModel RefDeanon RefInit RefHash RefEndToEnd.
+Theorem C01_generated_pipeline_computes_the_prefix_preserving_image :
+  forall (salt : str) (clsname : list Z) (salterv : pyval) (B : nat) (Ps : list (list bool)),
+  utf8 salt <> None ->
+  forall fuel (strs : list pyval) (pa : option (list pyval)) (nets : list pyval) (kw : pyval),
+  kw_lookup kw "salter" (VFun (of_string "_generate_bit_from_hash")) = salterv ->
+  kw_lookup kw "preserve_suffix" VNone = VInt (Z.of_nat B) ->
+  Forall2 (fun a n => ip_network a = Normal n) (pa_items pa) nets ->
+  Forall2 subnet_bits (strs ++ pa_items pa) Ps ->
+  (B <= 32)%nat ->
+  let H := salter_md5 salt in
+  let saltv := VStr (map Z.of_N salt) in
+  let obj := fun d => mkself clsname saltv (VInt 32%Z) fmt32 salterv (Z.of_nat B) (rest_of nets) d in
+  exists d0,
+    gen_IpAnonymizer____init__ DriverFn.md5_call fuel (VObj clsname []) saltv (VList strs) (pa_val pa) kw = Normal (VTuple [VNone; obj d0])
+    /\ MemoProofs.Inv H 32 B Ps d0
+    /\ forall d x bits y, MemoProofs.Inv H 32 B Ps d -> List.length bits = 32%nat ->
+         py_format fmt32 (VList [VInt x]) (VDict []) = Normal (VS bits) ->
+         (py_int (VS (MemoProofs.AB H 32 B Ps bits)) (VInt 2%Z) = Normal (VInt y) ->
+            exists d', gen__BaseIpAnonymizer__anonymize DriverFn.md5_call (S (List.length bits)) (obj d) (VInt x)
+                       = Normal (VTuple [VInt y; obj d']) /\ MemoProofs.Inv H 32 B Ps d')
+         /\
+         (py_int (VS (MemoProofs.DB H 32 B Ps bits)) (VInt 2%Z) = Normal (VInt y) ->
+            exists d', gen__BaseIpAnonymizer__deanonymize DriverFn.md5_call (S (List.length bits)) (obj d) (VInt x)
+                       = Normal (VTuple [VInt y; obj d']) /\ MemoProofs.Inv H 32 B Ps d').
+Proof. intros salt clsname salterv B Ps Hs. exact (generated_constructor_then_requests salt clsname salterv B Ps Hs). Qed.
+
+Print Assumptions C01_generated_pipeline_computes_the_prefix_preserving_image.
 Print Assumptions C01_common_prefix_length_preserved.
 Print Assumptions C01_injective.
 Print Assumptions C01_surjective.
